@@ -76,6 +76,7 @@ class WildGen:
                                        # the harness cannot read routines that contain them: switched off there)
             special_names=0.0,         # python keywords / ipython names / print / serialize as member names
             qualified_param_name_deep=False,   # D49: ns::T inside template arguments, T a parameter in scope
+            serialize_p=0.0,           # probability that a class declares the serialize() / serializable() marker
             enum_namesakes=0.0,        # probability that an enum takes the name of an enum of another scope
             overloads=0.0,             # probability that a method / static method reuses an earlier name of its class
                                        # (incl. the const / non-const pair of one signature)
@@ -361,6 +362,10 @@ class WildGen:
             elif k == 'enum':
                 members.append(self.enum(('class', self.ns_path, name)))
             self.scope_params = class_params
+        if r.random() < self.f['serialize_p'] and not any(m.k == 'Method' and m.name in ('serialize', 'serializable')
+                                                         for m in members):
+            members.insert(r.randint(0, len(members)),
+                           S.Method(r.choice(['serialize', 'serialize', 'serializable']), S.VOID, (), r.random() < 0.5, None))
             self.scoped_ok = dict(class_scoped_ok)
         self.scope_params, self.in_class, self.scoped_ok = saved
         return S.Class(name, tuple(members), tmpl, virt, base)
